@@ -10,7 +10,7 @@ var wordsFunctions = []string{"not", "isnull", "isnotnull", "iff", "iif", "strca
 var wordsConstants = []string{"true", "false", "null", "$left", "$right"}
 var wordsNames = []string{"a", "b", "T", "U"}
 var lexKeywords = []string{"and", "or", "in", "by"}
-var lexLiterals = []string{"1", "2.5", "'s'", "\"d\"", "`q`"}
+var lexLiterals = []string{"1", "2.5", "2E3", "'s'", "\"d\"", "`q`"}
 var lexPunct = []string{"|", ".", ",", "+", "-", "*", "/", "%", "=", "==", "!=", "<", "<=", ">", ">=", "=~", "!~", "(", ")", "[", "]", ";"}
 var lexErrors = []string{"!", "'u", "0x"}
 
